@@ -134,3 +134,26 @@ Fixpoint visible_okb (pre : list (nat * block)) (bs : list (nat * block)) : bool
       | _ => true
       end && visible_okb (pre ++ [(i, b)]) r
   end.
+
+(* a subscriber whose delivery failed receives nothing once the publish that saw the failure has
+   run its second critical section: the blocks after the first BPub2 of thread i, and the check *)
+Definition delivers_to (u : nat) (bs : list (nat * block)) : bool :=
+  existsb (fun x => match snd x with BPub1 _ _ dl => memb u (del_uids dl) | _ => false end) bs.
+
+Fixpoint after_pub2 (i : nat) (bs : list (nat * block)) : option (list (nat * block)) :=
+  match bs with
+  | [] => None
+  | (j, BPub2 _) :: r => if Nat.eqb j i then Some r else after_pub2 i r
+  | _ :: r => after_pub2 i r
+  end.
+
+Fixpoint late_okb (bs : list (nat * block)) : bool :=
+  match bs with
+  | [] => true
+  | (i, BPub1 _ _ dl) :: r =>
+      match after_pub2 i r with
+      | None => true
+      | Some r3 => forallb (fun d => snd d || negb (delivers_to (fst (fst d)) r3)) dl
+      end && late_okb r
+  | _ :: r => late_okb r
+  end.
